@@ -161,6 +161,13 @@ func (d *TypeDesc) Impl() string {
 // TopShapeLabel names the shape of a top-level type for the label histograms:
 // "" for non-pointer types, else "top.ptr-chain.impl" / ".corpus" / ".other".
 func TopShapeLabel(d *TypeDesc) string {
+	if d.K == KStruct {
+		for i := range d.Fields {
+			if d.Fields[i].T.K == KArray && d.Fields[i].T.Len >= 65536 {
+				return "top.struct-over-64KiB"
+			}
+		}
+	}
 	if d.K != KPtr {
 		return ""
 	}
